@@ -167,6 +167,9 @@ AggCol(g, a, tbls) ==
        ELSE [st |-> "ok", col |-> PlainCol(nm, rt, [k \in 1..Len(g.groups) |-> AggLookup(TblOf(tbls, a.fn.sym), groupCells(k))])]
   ELSE [st |-> "err"]
 
+\* <<3>> in a table: the reference itself is not defined on that group (e.g. float sum with NaN)
+HasUnspecCell(col) == \E r \in 1..Len(col.cells) : col.cells[r] = <<3>>
+
 RECURSIVE AggFold(_, _, _, _, _)
 AggFold(g, aggs, tbls, k, acc) ==     \* acc: [st, cols]
   IF k > Len(aggs) \/ acc.st # "ok" THEN acc
@@ -176,6 +179,7 @@ AggFold(g, aggs, tbls, k, acc) ==     \* acc: [st, cols]
             IF \E i \in 1..Len(acc.cols) : acc.cols[i].name = nm THEN [st |-> "err", cols |-> <<>>]
             ELSE LET ac == AggCol(g, a, tbls) IN
                  IF ac.st # "ok" THEN [st |-> ac.st, cols |-> <<>>]
+                 ELSE IF HasUnspecCell(ac.col) THEN [st |-> "unspec", cols |-> <<>>]
                  ELSE AggFold(g, aggs, tbls, k + 1, [st |-> "ok", cols |-> Append(acc.cols, ac.col)])
 
 AggregateSem(g, aggs, tbls) ==
